@@ -30,3 +30,174 @@ Theorem reader_ops_no_panic : forall dbg be root c op,
   (snd (step dbg be root c op) = Panic -> exists n, op = CReadUint n /\ (8 < n)%nat) /\
   snd (step dbg be root c op) <> OutOfFuel.
 Proof. exact C10.only_read_uint_panics. Qed.
+
+(* ---- instances proved in the other property developments ------------------------------------------
+   Each theorem below IS the theorem named in its comment (the statement is taken from it with
+   `type of`, the proof is `exact`); they are collected here so that "never panics, always terminates"
+   for every modelled parser and iterator is audited (Print Assumptions) under C01 as well.
+   `Check` prints each full statement in the build log. *)
+Require GV.Properties.C02 GV.Properties.C03 GV.Properties.C04 GV.Properties.C05 GV.Properties.C06 GV.Properties.C07 GV.Properties.C08 GV.Properties.C17 GV.Properties.C18 GV.Properties.C19.
+(* C02.no_panic — abbreviation parsing, unit-header parsing, next_entry / next_dfs / next_sibling / EntriesTree steps: never Panic, always terminate, from any state satisfying the reader invariant *)
+Theorem c01_c02_no_panic : ltac:(let t := type of C02.no_panic in exact t).
+Proof. exact C02.no_panic. Qed.
+Check c01_c02_no_panic.
+(* C03.no_panic — parse_attribute / read_attributes / skip_attributes for every spec list and byte string *)
+Theorem c01_c03_no_panic : ltac:(let t := type of C03.no_panic in exact t).
+Proof. exact C03.no_panic. Qed.
+Check c01_c03_no_panic.
+(* C03.line_parse_no_panic — the line-program attribute parser *)
+Theorem c01_c03_line_parse_no_panic : ltac:(let t := type of C03.line_parse_no_panic in exact t).
+Proof. exact C03.line_parse_no_panic. Qed.
+Check c01_c03_line_parse_no_panic.
+(* C04.no_panic_parse_insn — LineInstruction::parse on any bytes *)
+Theorem c01_c04_no_panic_parse_insn : ltac:(let t := type of C04.no_panic_parse_insn in exact t).
+Proof. exact C04.no_panic_parse_insn. Qed.
+Check c01_c04_no_panic_parse_insn.
+(* C04.no_panic_rows — LineRows (rows, continue-after-error, sequences): no Panic and the loop fuel suffices *)
+Theorem c01_c04_no_panic_rows : ltac:(let t := type of C04.no_panic_rows in exact t).
+Proof. exact C04.no_panic_rows. Qed.
+Check c01_c04_no_panic_rows.
+(* C04.no_panic_parse_header — LineProgramHeader::parse v2-5 on any bytes *)
+Theorem c01_c04_no_panic_parse_header : ltac:(let t := type of C04.no_panic_parse_header in exact t).
+Proof. exact C04.no_panic_parse_header. Qed.
+Check c01_c04_no_panic_parse_header.
+(* C05.entries_total — CfiEntriesIter over any section bytes *)
+Theorem c01_c05_entries_total : ltac:(let t := type of C05.entries_total in exact t).
+Proof. exact C05.entries_total. Qed.
+Check c01_c05_entries_total.
+(* C05.fde_parse_total — FDE parsing against its CIE *)
+Theorem c01_c05_fde_parse_total : ltac:(let t := type of C05.fde_parse_total in exact t).
+Proof. exact C05.fde_parse_total. Qed.
+Check c01_c05_fde_parse_total.
+(* C05.fde_for_address_total — linear FDE lookup *)
+Theorem c01_c05_fde_for_address_total : ltac:(let t := type of C05.fde_for_address_total in exact t).
+Proof. exact C05.fde_for_address_total. Qed.
+Check c01_c05_fde_for_address_total.
+(* C05.hdr_parse_total — EhFrameHdr::parse *)
+Theorem c01_c05_hdr_parse_total : ltac:(let t := type of C05.hdr_parse_total in exact t).
+Proof. exact C05.hdr_parse_total. Qed.
+Check c01_c05_hdr_parse_total.
+(* C05.table_iter_total — EhHdrTableIter *)
+Theorem c01_c05_table_iter_total : ltac:(let t := type of C05.table_iter_total in exact t).
+Proof. exact C05.table_iter_total. Qed.
+Check c01_c05_table_iter_total.
+(* C05.table_iter_stops_after_error — EhHdrTableIter yields nothing after an error *)
+Theorem c01_c05_table_iter_stops_after_error : ltac:(let t := type of C05.table_iter_stops_after_error in exact t).
+Proof. exact C05.table_iter_stops_after_error. Qed.
+Check c01_c05_table_iter_stops_after_error.
+(* C05.table_nth_total — EhHdrTableIter::nth for every n *)
+Theorem c01_c05_table_nth_total : ltac:(let t := type of C05.table_nth_total in exact t).
+Proof. exact C05.table_nth_total. Qed.
+Check c01_c05_table_nth_total.
+(* C05.lookup_total — EhHdrTable::lookup (binary search) terminates without Panic on any table *)
+Theorem c01_c05_lookup_total : ltac:(let t := type of C05.lookup_total in exact t).
+Proof. exact C05.lookup_total. Qed.
+Check c01_c05_lookup_total.
+(* C05.hdr_fde_for_address_total — EhHdrTable::fde_for_address *)
+Theorem c01_c05_hdr_fde_for_address_total : ltac:(let t := type of C05.hdr_fde_for_address_total in exact t).
+Proof. exact C05.hdr_fde_for_address_total. Qed.
+Check c01_c05_hdr_fde_for_address_total.
+(* C06.no_panic — UnwindTable evaluation for every CIE/FDE instruction string, storage capacity and context *)
+Theorem c01_c06_no_panic : ltac:(let t := type of C06.no_panic in exact t).
+Proof. exact C06.no_panic. Qed.
+Check c01_c06_no_panic.
+(* C06.parse_insn_total — CallFrameInstruction::parse *)
+Theorem c01_c06_parse_insn_total : ltac:(let t := type of C06.parse_insn_total in exact t).
+Proof. exact C06.parse_insn_total. Qed.
+Check c01_c06_parse_insn_total.
+(* C07.decode_no_panic — Operation::parse on any bytes *)
+Theorem c01_c07_decode_no_panic : ltac:(let t := type of C07.decode_no_panic in exact t).
+Proof. exact C07.decode_no_panic. Qed.
+Check c01_c07_decode_no_panic.
+(* C07.operations_terminate — OperationIter terminates *)
+Theorem c01_c07_operations_terminate : ltac:(let t := type of C07.operations_terminate in exact t).
+Proof. exact C07.operations_terminate. Qed.
+Check c01_c07_operations_terminate.
+(* C07.eval_no_panic — Evaluation with any program, answer list, iteration limit (or none), fuel *)
+Theorem c01_c07_eval_no_panic : ltac:(let t := type of C07.eval_no_panic in exact t).
+Proof. exact C07.eval_no_panic. Qed.
+Check c01_c07_eval_no_panic.
+(* C08.no_panic_raw_ranges — RawRngListIter *)
+Theorem c01_c08_no_panic_raw_ranges : ltac:(let t := type of C08.no_panic_raw_ranges in exact t).
+Proof. exact C08.no_panic_raw_ranges. Qed.
+Check c01_c08_no_panic_raw_ranges.
+(* C08.no_panic_raw_locations — RawLocListIter *)
+Theorem c01_c08_no_panic_raw_locations : ltac:(let t := type of C08.no_panic_raw_locations in exact t).
+Proof. exact C08.no_panic_raw_locations. Qed.
+Check c01_c08_no_panic_raw_locations.
+(* C08.no_panic_tables — get_offset / get_address / get_str_offset for every index and base *)
+Theorem c01_c08_no_panic_tables : ltac:(let t := type of C08.no_panic_tables in exact t).
+Proof. exact C08.no_panic_tables. Qed.
+Check c01_c08_no_panic_tables.
+(* C08.no_panic_ranges — RngListIter (address sizes 1,2,4,8) *)
+Theorem c01_c08_no_panic_ranges : ltac:(let t := type of C08.no_panic_ranges in exact t).
+Proof. exact C08.no_panic_ranges. Qed.
+Check c01_c08_no_panic_ranges.
+(* C08.no_panic_locations — LocListIter (address sizes 1,2,4,8) *)
+Theorem c01_c08_no_panic_locations : ltac:(let t := type of C08.no_panic_locations in exact t).
+Proof. exact C08.no_panic_locations. Qed.
+Check c01_c08_no_panic_locations.
+(* C08.no_panic_die_ranges_all — Dwarf::die_ranges *)
+Theorem c01_c08_no_panic_die_ranges_all : ltac:(let t := type of C08.no_panic_die_ranges_all in exact t).
+Proof. exact C08.no_panic_die_ranges_all. Qed.
+Check c01_c08_no_panic_die_ranges_all.
+(* C08.iter_terminates — list iterators finish within |section| items plus errors *)
+Theorem c01_c08_iter_terminates : ltac:(let t := type of C08.iter_terminates in exact t).
+Proof. exact C08.iter_terminates. Qed.
+Check c01_c08_iter_terminates.
+(* C08.raw_iter_stops_after_error — raw list iterators yield nothing after an error *)
+Theorem c01_c08_raw_iter_stops_after_error : ltac:(let t := type of C08.raw_iter_stops_after_error in exact t).
+Proof. exact C08.raw_iter_stops_after_error. Qed.
+Check c01_c08_raw_iter_stops_after_error.
+(* C17.index_find_terminates — UnitIndex::find makes at most slot_count probes *)
+Theorem c01_c17_index_find_terminates : ltac:(let t := type of C17.index_find_terminates in exact t).
+Proof. exact C17.index_find_terminates. Qed.
+Check c01_c17_index_find_terminates.
+(* C17.index_parse_no_panic — UnitIndex::parse *)
+Theorem c01_c17_index_parse_no_panic : ltac:(let t := type of C17.index_parse_no_panic in exact t).
+Proof. exact C17.index_parse_no_panic. Qed.
+Check c01_c17_index_parse_no_panic.
+(* C17.index_find_no_panic — UnitIndex::find *)
+Theorem c01_c17_index_find_no_panic : ltac:(let t := type of C17.index_find_no_panic in exact t).
+Proof. exact C17.index_find_no_panic. Qed.
+Check c01_c17_index_find_no_panic.
+(* C17.index_sections_no_panic — UnitIndex::sections *)
+Theorem c01_c17_index_sections_no_panic : ltac:(let t := type of C17.index_sections_no_panic in exact t).
+Proof. exact C17.index_sections_no_panic. Qed.
+Check c01_c17_index_sections_no_panic.
+(* C17.names_bucket_terminates — NameBucketIter *)
+Theorem c01_c17_names_bucket_terminates : ltac:(let t := type of C17.names_bucket_terminates in exact t).
+Proof. exact C17.names_bucket_terminates. Qed.
+Check c01_c17_names_bucket_terminates.
+(* C17.names_hash_terminates — NameHashIter *)
+Theorem c01_c17_names_hash_terminates : ltac:(let t := type of C17.names_hash_terminates in exact t).
+Proof. exact C17.names_hash_terminates. Qed.
+Check c01_c17_names_hash_terminates.
+(* C17.names_headers_no_panic — NameIndexHeaderIter *)
+Theorem c01_c17_names_headers_no_panic : ltac:(let t := type of C17.names_headers_no_panic in exact t).
+Proof. exact C17.names_headers_no_panic. Qed.
+Check c01_c17_names_headers_no_panic.
+(* C17.names_index_new_no_panic — NameIndex::new *)
+Theorem c01_c17_names_index_new_no_panic : ltac:(let t := type of C17.names_index_new_no_panic in exact t).
+Proof. exact C17.names_index_new_no_panic. Qed.
+Check c01_c17_names_index_new_no_panic.
+(* C17.names_entries_no_panic — NameEntryIter *)
+Theorem c01_c17_names_entries_no_panic : ltac:(let t := type of C17.names_entries_no_panic in exact t).
+Proof. exact C17.names_entries_no_panic. Qed.
+Check c01_c17_names_entries_no_panic.
+(* C17.aranges_no_panic — ArangeHeaderIter / ArangeEntryIter *)
+Theorem c01_c17_aranges_no_panic : ltac:(let t := type of C17.aranges_no_panic in exact t).
+Proof. exact C17.aranges_no_panic. Qed.
+Check c01_c17_aranges_no_panic.
+(* C17.pubstuff_no_panic — pubnames / pubtypes LookupEntryIter *)
+Theorem c01_c17_pubstuff_no_panic : ltac:(let t := type of C17.pubstuff_no_panic in exact t).
+Proof. exact C17.pubstuff_no_panic. Qed.
+Check c01_c17_pubstuff_no_panic.
+(* C18.reader_no_panic — RelocateReader: every parser program in the reader monad *)
+Theorem c01_c18_reader_no_panic : ltac:(let t := type of C18.reader_no_panic in exact t).
+Proof. exact C18.reader_no_panic. Qed.
+Check c01_c18_reader_no_panic.
+(* C19.worklist_fuel — FilterDependencies::get_reachable terminates within #nodes+2 iterations *)
+Theorem c01_c19_worklist_fuel : ltac:(let t := type of C19.worklist_fuel in exact t).
+Proof. exact C19.worklist_fuel. Qed.
+Check c01_c19_worklist_fuel.
